@@ -18,7 +18,12 @@ RULE = ("texts rendered from random term lists of the multivariate grammar (1-5 
         "bindings, every letter of both cases and case pairs inside a term, coefficient and exponent spellings of extreme magnitude "
         "and length, 6-40 terms and 5-26 variables per term, exponents up to the dense parser's limit through both parsers, "
         "structures with extreme numbers through eval_multivariate / eval_univariate; every evaluation is repeated through the "
-        "free function, borrowed names, a HashMap, f32 / i32 values and the univariate entry point (harness verdict). Non-trivial = an accepted text/structure with at least one variable; "
+        "free function, borrowed names, a HashMap, f32 / i32 values and the univariate entry point (harness verdict). Words of other "
+        "parsers spelled from single-letter variables (inf, nan, infinity, e in every letter case; pi, tau, ln, exp, sin, true, null, "
+        "... in lower / upper / capitalised case) alone, signed, with every coefficient and exponent form, inside longer "
+        "polynomials, with spaces between the letters, next to other variables; literal markers (1e+5, 1E-5, .5e-3, 0x, 0xf, 0b, 3j, "
+        "1f, 1L ...) through the multivariate parser and through both parsers at a point - each with its intended term list (a "
+        "repeated letter adds its exponents), evaluated with all variables bound and with one left out. Non-trivial = an accepted text/structure with at least one variable; "
         "distinct = distinct request lines")
 
 def _parse_inter(tokens, numconv):
